@@ -175,7 +175,8 @@ def run_check(P, pid, tier, seed, t0, a):
     nres = None
     if hasattr(P, "native_args"):
         nres = run_native(P, pid, tier, seed, known)
-        log(f"[{pid}] N: {nres['evaluations']} native evaluations, {len(nres['fails'])} failing checks, "
+        log(f"[{pid}] N: {nres['evaluations']} native evaluations, {nres['mq']} model queries "
+            f"({len(nres['mq_disagree'])} disagreements), {len(nres['fails'])} failing checks, "
             f"{len(nres['known'])} known findings")
         for kf in nres["known"]:
             print(f"KNOWN-FINDING: property={pid} {kf}")
@@ -203,6 +204,15 @@ def run_check(P, pid, tier, seed, t0, a):
                                              "implementation is not satisfied on this input"})
         violations.append((path, False))
 
+    if nres and nres["mq_disagree"]:
+        q, ans, m = nres["mq_disagree"][0]
+        if not nres["fails"]:
+            path = write_replay(pid, "correspondence", {
+                "broken": [{"correspondence": "D:" + " ".join(x[0].split(" ")[:2]), "input": x[0], "impl": x[1], "model": x[2]}
+                           for x in nres["mq_disagree"][:20]],
+                "note": "the model's combination of the per-component results differs from the implementation; "
+                        "the direct per-component oracle found no failing input"})
+            violations.append((path, True))
     if nres:
         for (name, desc) in nres["fails"]:
             path = write_replay(pid, "native", {"check": name, "first_failing_input": desc,
@@ -258,7 +268,9 @@ def run_native(P, pid, tier, seed, known):
                             stderr=core.subprocess.PIPE, text=True, timeout=3000)
     if p.returncode != 0:
         raise MachineryError(f"native check failed to run: {p.stderr[-2000:]}")
-    res = {"evaluations": 0, "fails": [], "known": [], "checks": {}, "exhaustive": None}
+    res = {"evaluations": 0, "fails": [], "known": [], "checks": {}, "exhaustive": None, "mq": 0, "mq_disagree": [],
+           "mq_samples": [], "info": []}
+    mqs = []
     knames = {e.get("probe"): e for e in known if e.get("status") == "known" and e.get("probe")}
     for line in p.stdout.split("\n"):
         t = line.split(" ")
@@ -271,6 +283,11 @@ def run_native(P, pid, tier, seed, known):
                 res["fails"].append((t[1], line.split(" first=", 1)[1] if " first=" in line else ""))
         elif t[0] == "native" and "exhaustive" in t[1]:
             res["exhaustive"] = line
+        elif t[0] == "mq" and " => " in line:
+            q, ans = line[3:].split(" => ", 1)
+            mqs.append((q, ans))
+        elif t[0] == "info":
+            res["info"].append(line[5:])
         elif t[0] == "probe":
             ok = line.rstrip().endswith("ok=true")
             if not ok:
@@ -278,6 +295,23 @@ def run_native(P, pid, tier, seed, known):
                     res["known"].append(knames[t[1]].get("what", line))
                 else:
                     res["fails"].append((t[1], line))
+    if mqs:
+        out = core.run_ops(core.BIN_MODEL, [], "".join(q + "\n" for q, _ in mqs))
+        if len(out) != len(mqs):
+            raise MachineryError("model query line count mismatch")
+        res["mq"] = len(mqs)
+        res["mq_distinct_nontrivial"] = len({q for q, _ in mqs if len(set(q.split(" ")[2:])) >= 2})
+        for (q, ans), m in zip(mqs, out):
+            if m in ("unknown-op", "bad-args", "bad-line"):
+                raise MachineryError(f"protocol error on model query `{q}`: {m}")
+            if m != ans:
+                res["mq_disagree"].append((q, ans, m))
+        seen = set()
+        for (q, ans) in mqs:
+            k = " ".join(q.split(" ")[:2])
+            if k not in seen and len(res["mq_samples"]) < 6 and len(q.split(" ")) > 3:
+                seen.add(k)
+                res["mq_samples"].append({"op": k, "line": q, "impl": ans, "model": ans})
     return res
 
 
@@ -333,9 +367,16 @@ def write_evidence(P, pid, tier, seed, t0, thms, dres, ores, tres, nviol, notes,
     else:
         cov.update({"evaluations": 0, "distinct_nontrivial": 0, "samples": []})
     if nres:
-        cov["native"] = {"evaluations": nres["evaluations"], "checks": nres["checks"],
+        cov["native"] = {"evaluations": nres["evaluations"], "checks": nres["checks"], "model_queries": nres["mq"],
+                         "model_query_disagreements": len(nres["mq_disagree"]), "info": nres["info"],
                          "exhaustive": nres["exhaustive"], "known_findings_reported": nres["known"]}
-        cov["evaluations"] = cov.get("evaluations", 0) + nres["evaluations"]
+        cov["evaluations"] = cov.get("evaluations", 0) + nres["evaluations"] + nres["mq"]
+        if nres["mq_samples"]:
+            cov["samples"] = (cov.get("samples") or []) + nres["mq_samples"]
+            cov["distinct_nontrivial"] = cov.get("distinct_nontrivial", 0) + nres.get("mq_distinct_nontrivial", 0)
+            cov["rule"] = (cov.get("rule", "") + " Model queries (native bookkeeping properties): one query = the per-component "
+                           "results of one native case combined by the Lean model and compared with the implementation's "
+                           "compound result; non-trivial = at least two distinct component tokens.").strip()
     if tres:
         cov["trace"] = {k: tres[k] for k in ("obligations", "discharged", "kernels", "failed")}
     ev = {
